@@ -468,7 +468,8 @@ func minmax(num func(*Interp, *Val, *Val) *Err, allInts func([]*Val) bool, fl fu
 			// (visible only for ints a float cannot hold exactly)
 			return arg, nil
 		}
-		return Float(best), nil
+		// a not-a-number among the arguments: no argument is "the largest", the documentation does not say
+		return nil, &Err{Cond: "<unspecified>"}
 	}
 }
 
